@@ -142,6 +142,31 @@ func All(seed int64) []Input {
 			add("font-indep-"+c, "type1", data)
 		}
 	}
+	// a font without an /Encoding entry between fonts that use StandardEncoding (read before and after it)
+	if data, err := indep.WriteFont(spec, indep.Layout{Cont: "pfa", LenIV: 4, Names: "RD", Enc: "none"}); err == nil {
+		add("font-indep-no-encoding", "type1", data)
+	}
+	if data, err := indep.WriteFont(spec, indep.Layout{Cont: "clear", LenIV: 4, Names: "bar", Enc: "std"}); err == nil {
+		add("font-indep-clear-bar", "type1", data)
+	}
+	// the other line-end conventions (classic Mac: CR, DOS: CR LF), in the hexadecimal and in the binary form
+	for _, c := range []string{"pfa", "bin"} {
+		for _, el := range []string{"cr", "crlf"} {
+			if data, err := indep.WriteFont(spec, indep.Layout{Cont: c, LenIV: 4, Names: "RD", Enc: "std", Eol: el}); err == nil {
+				add("font-indep-"+c+"-"+el, "type1", data)
+			}
+		}
+	}
+	// the same under other names: the cipher text of the closing line end differs from font to font (a stray
+	// cipher byte that happens to look like a number would vanish in the cleartomark of the trailer)
+	for k, nm := range []string{"IndepA", "IndepBB", "IndepCCC"} {
+		sp := *spec
+		sp.FontName = nm
+		sp.Private = append(append([]string{}, spec.Private...), fmt.Sprintf("/BlueShift %d def", k+5)) // inside the encrypted portion
+		if data, err := indep.WriteFont(&sp, indep.Layout{Cont: "pfa", LenIV: 4, Names: "RD", Enc: "std", Eol: "crlf"}); err == nil {
+			add(fmt.Sprintf("font-indep-pfa-crlf-%d", k+2), "type1", data)
+		}
+	}
 	// charstrings that lean on the reader's scratch state (OtherSubrs results, flex points): the two
 	// malformed ones come first, so that a run over the corpus meets them once before and once after
 	// the fonts that fill that state (a leak from one read into the next changes what they give)
